@@ -43,7 +43,7 @@ fn gen_themed(src: &mut Src, tier: Tier) -> Case {
         4 => {
             // anchors under scoped m
             let body = Node::Cat(vec![if src.chance(1, 2) { Node::Bol } else { Node::Eol }, gen_node(src, &cfg, 2)]);
-            Node::Cat(vec![gen_node(src, &cfg, 2), Node::Mods { on: if src.chance(1, 2) { 2 } else { 0 }, off: if src.chance(1, 2) { 0 } else { 2 }, body: Box::new(body) }])
+            Node::Cat(vec![gen_node(src, &cfg, 2), { let on_m = src.chance(1, 2); Node::Mods { on: if on_m { 2 } else { 0 }, off: if on_m { 0 } else { 2 }, body: Box::new(body) } }])
         }
         5 => {
             // counts at 0/1/2 boundaries around groups
@@ -87,6 +87,7 @@ pub fn check(case: &Case, l: &mut Local) -> Verdict {
         (Err(_), Err(RefErr::Syntax(_))) => return Verdict::Skip("both_reject"),
         (Err(_), _) => return Verdict::Skip("regress_rejects_valid(C08)"),
         (Ok(_), Err(RefErr::Syntax(_))) => return Verdict::Skip("regress_accepts_invalid(C08)"),
+        // (a pattern regress accepts only because of a recorded grammar quirk is C08's known finding; nothing to compare)
         (Ok(_), Err(RefErr::Decline(_))) => return Verdict::Skip("reference_declines"),
         (Ok(a), Ok(b)) => (a, b),
     };
@@ -106,6 +107,9 @@ pub fn check(case: &Case, l: &mut Local) -> Verdict {
     };
     l.max("max_regress_steps_per_ref_step_x100", rep.used * 100 / (steps + 1));
     if got != want {
+        if let Some(id) = crate::kf::explain_match(&case.pat, fl, h, case.start, &got, REF_LIMIT) {
+            return Verdict::Known(id);
+        }
         return Verdict::Fail(format!(
             "find_from = {} but ECMAScript semantics give {}",
             got.as_ref().map(|m| m.show()).unwrap_or_else(|| "no match".into()),
